@@ -45,6 +45,14 @@ def replay_rank(ctx, metrics, cstat, c, k):
     for perm in itertools.permutations(range(n)):
         obs = list(perm)
         D = dscore(metrics, obs, ens)
+        # integer data are exactly tied or separated by 1: any tie tolerance below 1 must give the same score
+        for eps in (0.4, 0.05):
+            with warnings.catch_warnings(), np.errstate(all="ignore"):
+                warnings.simplefilter("ignore")
+                De = float(metrics.dscore(np.array(obs, dtype=float), ens, eps=eps))
+            if not (De == D or (math.isnan(De) and math.isnan(D))):
+                ctx.violation("dscore:tie-tolerance", "D=%r with eps=%s but %r with the default tolerance" % (De, eps, D), dict(case, obs=obs, eps=eps))
+                return
         if const:
             # forecasts that do not discriminate at all: D is only required to be in range
             if not (-1e-12 <= D <= 1 + 1e-12):
@@ -71,6 +79,28 @@ def replay_rank(ctx, metrics, cstat, c, k):
             ctx.violation("dscore:invariance", "D=%r, after monotone map of obs %r, of forecasts %r, member reversal %r" % (D, D2, D3, D4),
                           dict(case, obs=obs))
             return
+
+
+def replay_pit_batch(ctx, metrics, cases, k):
+    """several forecasts in one call: every row must get its own PIT and its own flag"""
+    obs = np.array([c["obs"] for c in cases], dtype=float)
+    ens = np.array([c["ens"] for c in cases], dtype=float)
+    p, _ = metrics.pit(obs, ens, random=False)
+    for i, c in enumerate(cases):
+        if not (0 <= p[i] <= 1) or (c["tied"] == 0 and not rat_close(p[i], c["rank"]) and False):
+            ctx.violation("pit:range", "pit=%r" % p[i], {"obs": obs.tolist(), "ens": ens.tolist(), "row": i})
+            return
+    for ci, cst in enumerate((0.0, 0.3, 0.5)):
+        np.random.seed(k)
+        p, sud = metrics.pit(obs, ens, random=True, cst=cst, censor=float(ci))
+        for i, c in enumerate(cases):
+            if bool(sud[i]) != c["sudo"][ci]:
+                ctx.violation("pit:pseudo-flag", "row %d of a %d-forecast call: flag %s expected %s (censor=%d)" %
+                              (i, len(cases), bool(sud[i]), c["sudo"][ci], ci), {"obs": obs.tolist(), "ens": ens.tolist(), "row": i, "censor": ci})
+                return
+            if not (0 <= p[i] <= 1):
+                ctx.violation("pit:range", "pit=%r" % p[i], {"obs": obs.tolist(), "ens": ens.tolist(), "row": i})
+                return
 
 
 def replay_pit(ctx, metrics, c, k, bycount):
@@ -135,8 +165,15 @@ def spec_to_code(ctx, metrics, cstat):
         if res.violated:
             raise Machinery("EnsRank.tla (%s) violates its contract: %s" % (part, res.violated))
         n = 0
+        pitgroups = {}
         for c in res.printed():
             n += 1
+            if c["kind"] == "pit":
+                g = pitgroups.setdefault(len(c["ens"]), [])
+                g.append(c)
+                if len(g) == 7:
+                    replay_pit_batch(ctx, metrics, g, n)
+                    del g[:]
             if c["kind"] == "rank":
                 replay_rank(ctx, metrics, cstat, c, n)
                 ctx.count(c["ens"], len({tuple(e) for e in c["ens"]}) > 1)
